@@ -30,6 +30,12 @@ fn dags<'b>(ctx: &types::Context<'b>, depth: usize, pool: &mut Vec<N<'b>>) -> Ve
             if let Ok(c) = N::comp(a, a) {
                 out.push(c); // the same Arc twice
             }
+            if let Ok(c) = N::comp(&N::take(a), &N::injl(b)) {
+                // unary nodes: take / injl over the sub-DAGs, closed off by a unit
+                if let Ok(c2) = N::comp(&c, &N::unit(ctx)) {
+                    out.push(c2);
+                }
+            }
             if let (Ok(p), u) = (N::pair(a, b), N::unit(ctx)) {
                 if let Ok(c) = N::comp(&p, &u) {
                     out.push(c);
@@ -76,7 +82,7 @@ fn c18_dag_replay() {
         let mut pool = Vec::new();
         let all = dags(&ctx, 3, &mut pool);
         for e in all.iter() {
-            let prog = match e.finalize_types() {
+            let prog = match e.finalize_types_non_program() {
                 Ok(p) => p,
                 Err(_) => continue,
             };
@@ -93,7 +99,12 @@ fn c18_dag_replay() {
             for (i, d) in got.iter().enumerate() {
                 let ch: Vec<usize> = children(d.node).into_iter().map(|c| pos.get(&ptr(c)).copied().unwrap_or(usize::MAX)).collect();
                 let reported: Vec<usize> = d.left_index.into_iter().chain(d.right_index).collect();
-                if d.index != i || reported != ch || ch.iter().any(|&c| c >= i) {
+                let shape_ok = match ch.len() {
+                    0 => d.left_index.is_none() && d.right_index.is_none(),
+                    1 => d.left_index.is_some() && d.right_index.is_none(),
+                    _ => d.left_index.is_some() && d.right_index.is_some(),
+                };
+                if d.index != i || reported != ch || !shape_ok || ch.iter().any(|&c| c >= i) {
                     fails.push(format!("{}: item {} reports index {} and child indices {:?}; its children were yielded at {:?}", name, i, d.index, reported, ch));
                 }
             }
@@ -107,7 +118,12 @@ fn c18_dag_replay() {
             for (i, d) in rtl.iter().enumerate() {
                 let ch: Vec<usize> = children(d.node).into_iter().map(|c| rpos.get(&ptr(c)).copied().unwrap_or(usize::MAX)).collect();
                 let reported: Vec<usize> = d.left_index.into_iter().chain(d.right_index).collect();
-                if d.index != i || reported != ch || ch.iter().any(|&c| c >= i) {
+                let shape_ok = match ch.len() {
+                    0 => d.left_index.is_none() && d.right_index.is_none(),
+                    1 => d.left_index.is_some() && d.right_index.is_none(),
+                    _ => d.left_index.is_some() && d.right_index.is_some(),
+                };
+                if d.index != i || reported != ch || !shape_ok || ch.iter().any(|&c| c >= i) {
                     fails.push(format!("{}: right-to-left item {} reports index {} and child indices {:?}; its (left, right) children were yielded at {:?}", name, i, d.index, reported, ch));
                 }
             }
